@@ -32,6 +32,7 @@ struct TaskCtx {
   bool until_event = false;    // current quantum ends at the next yield point
   uint32_t watch_guard = 0;    // co-location: yield when this edge is reached
   int guard_depth = 0;         // >0 while holding a __cxa_guard: not preemptible
+  uint64_t guard_brackets = 0; // number of function-local-static initialisations this task performed under a guard
   uint64_t yields = 0;
 };
 
